@@ -91,6 +91,8 @@ class CallMixin:
             return self.construct(fv, args, kwargs, st, node)
         if isinstance(fv, VOpaque) and fv.name == "typing":
             return VNone()
+        if isinstance(fv, VModule) and (fv.name == "lxml.builder.E" or fv.name.startswith("lxml.builder.E.")):
+            return self.make_element(fv, args, kwargs, st, node)
         raise Unsupported(f"call of non-function {getattr(fv,'ty',type(fv).__name__)} at line {node.lineno}: {ast.unparse(node)[:60]}")
 
     # ------------------------------------------------------------------ library
@@ -114,6 +116,77 @@ class CallMixin:
         if fv.self_val is not None:
             return h(self, st, fv.self_val, args, kwargs, node)
         return h(self, st, args, kwargs, node)
+
+    def make_element(self, fv, args, kwargs, st, node):
+        """lxml.builder.E.tag(*children_or_text, **attributes) / E(tag, ...): a new element of the infoset model
+        (assumed contract of lxml.builder: string arguments become the text, element arguments are appended in order,
+        keyword arguments become attributes)"""
+        self.assumed.add("library: lxml.builder.E builds an element with the given tag, text, attributes (keyword arguments) and children in argument order")
+        args = list(args)
+        if fv.name == "lxml.builder.E":
+            tag = args.pop(0)
+        else:
+            tag = VStr(fv.name.rsplit(".", 1)[1])
+        el = st.new_ref("Element")
+        st.set_field(el.e, "Element.tag", TStr(), tag)
+        text = VNone()
+        children = default_value(TList(TRef("Element")))
+        for a in args:
+            if isinstance(a, VOpt):
+                a = self.unopt(a, st, node)
+            if isinstance(a, VStr):
+                if not isinstance(text, VNone):
+                    raise Unsupported("several text arguments to E")
+                text = a
+            elif isinstance(a, VRef) and a.cls == "Element":
+                children = self.list_append(children, a)
+            else:
+                raise Unsupported(f"argument of type {a.ty} to lxml.builder.E")
+        st.set_field(el.e, "Element.text", TOpt(TStr()), text)
+        st.set_field(el.e, "Element.children", TList(TRef("Element")), children)
+        attrib = empty_dict(TDict(TStr(), TStr()))
+        for k, v in kwargs.items():
+            if isinstance(v, VOpt):
+                v = self.unopt(v, st, node)
+            attrib = self.dict_set(attrib, VStr(k), v, st)
+        st.set_field(el.e, "Element.attrib", TDict(TStr(), TStr()), attrib)
+        return el
+
+    def lib_sorted(self, e, st):
+        """sorted(list_of_objects, key=lambda x: x.attr): a permutation of the list, ascending in the key (assumed library fact)"""
+        kw = {k.arg: k.value for k in e.keywords}
+        key = kw.get("key")
+        lst = self.eval(e.args[0], st)
+        if not (isinstance(lst, VList) and isinstance(key, ast.Lambda) and len(key.args.args) == 1):
+            raise Unsupported("sorted(..., key=...) of this shape")
+        self.assumed.add("library: sorted(l, key=f) returns a permutation of l that is ascending in f (stable)")
+        res = z3.Const(fresh_name("sorted"), lst.e.sort())
+        n = z3.Length(lst.e)
+        perm = z3.Function(fresh_name("perm"), z3.IntSort(), z3.IntSort())
+        inv = z3.Function(fresh_name("perminv"), z3.IntSort(), z3.IntSort())
+        a, b = z3.Ints(fresh_name("a") + " " + fresh_name("b"))
+
+        def keyof(elem_e, s_):
+            tmp = s_.copy()
+            tmp.locals = dict(s_.locals)
+            tmp.locals[key.args.args[0].arg] = elem_value(lst.elem_ty, elem_e)
+            saved = self.in_spec
+            self.in_spec += 1
+            try:
+                v = self.eval(key.body, tmp)
+            finally:
+                self.in_spec = saved
+            return flat(v)[0]
+
+        ka, kb = keyof(res[a], st), keyof(res[b], st)
+        st.assume(z3.Length(res) == n)
+        st.assume(z3.ForAll([a], z3.Implies(z3.And(0 <= a, a < n), z3.And(0 <= perm(a), perm(a) < n, res[a] == lst.e[perm(a)], inv(perm(a)) == a))))
+        st.assume(z3.ForAll([a], z3.Implies(z3.And(0 <= a, a < n), z3.And(0 <= inv(a), inv(a) < n, perm(inv(a)) == a))))
+        if ka.sort() == z3.StringSort():
+            st.assume(z3.ForAll([a, b], z3.Implies(z3.And(0 <= a, a < b, b < n), ka <= kb)))
+        else:
+            st.assume(z3.ForAll([a, b], z3.Implies(z3.And(0 <= a, a < b, b < n), ka <= kb)))
+        return VList(lst.elem_ty, res)
 
     def mutate(self, node, st, newval):
         """write the new value of a list/dict/set back to the lvalue expression it was reached through"""
